@@ -449,6 +449,16 @@ func (c *fctx) binary(x *ast.BinaryExpr) (lx, error) {
 		}
 		return lx{s: fmt.Sprintf("(%s >>> %s)", a.s, n.s), t: a.t}, nil
 	}
+	if c.cfg.nonNilRecv && (x.Op == token.EQL || x.Op == token.NEQ) {
+		if id, ok := stripParens(x.Y).(*ast.Ident); ok && id.Name == "nil" {
+			if xi, ok := stripParens(x.X).(*ast.Ident); ok && c.recv != nil && c.info.Uses[xi] == c.recv {
+				if x.Op == token.EQL {
+					return lx{s: "false", p: "False", t: ltype{k: kBool, lean: "Bool"}}, nil
+				}
+				return lx{s: "true", p: "True", t: ltype{k: kBool, lean: "Bool"}}, nil
+			}
+		}
+	}
 	b, err := c.expr(x.Y)
 	if err != nil {
 		return lx{}, err
@@ -583,8 +593,8 @@ func (c *fctx) convert(a lx, to ltype, arg ast.Expr) (lx, error) {
 		return lx{s: a.s, t: to}, nil
 	case to.k == kString && from.k == kList && from.elem.k == kByte:
 		return lx{s: "(Go.stringOfBytes " + a.s + ")", t: to}, nil
-	case to.k == from.k && to.k == kStruct && to.name == from.name:
-		return a, nil
+	case to.k == from.k && to.k == kStruct && (to.name == from.name || to.lean == from.lean):
+		return lx{s: a.s, t: to}, nil
 	case to.k == kBool && from.k == kBool, to.k == kString && from.k == kString:
 		return a, nil
 	case to.k == kList && from.k == kList:
